@@ -14,6 +14,8 @@ Tier P `InvP`), no FIFO hypothesis is left anywhere, and the example at the end 
 -/
 import EkwVerif.Lemmas.SchedBound
 import EkwVerif.Lemmas.SchedIdle
+import EkwVerif.Lemmas.SchedTermC
+import EkwVerif.Props.C16
 
 namespace EkwVerif.Ctrl
 
@@ -146,16 +148,181 @@ commanded transfer/fetch); every executor step strictly decreases |queued| + |ou
 arrives: the controller never waits with nothing outstanding. -/
 theorem c03_no_idle_wait (f : Sem) (j : Job) (cl : Cluster) (cm : Comps) (wf : WF j cl) (wfc : WFC j cm)
     (feas : Feasible j cl) (x : SysX) (hr : ReachableX f j cl cm x) (hw : x.sys.phase = .waiting) :
-    x.sys.env.pending ≠ [] ∨ ∃ es e', envStep f j x.sys.env es = some e' :=
-  sI_no_idle_wait f j cl cm wf wfc feas x hr hw
+    x.sys.env.pending ≠ [] ∨ ∃ es e', envStepP f j x.sys.env es = some e' := by
+  have h1 := (invX_reachable f j cl cm wf wfc x hr).hA.h1
+  rcases sI_no_idle_wait f j cl cm wf wfc feas x hr hw with h | ⟨es, e', he⟩
+  · exact Or.inl h
+  · exact Or.inr ⟨es, e', by rw [envStepP_eq f j x.sys.env es h1.no_trim]; exact he⟩
 
 /-- **An ongoing task is live — any event order.** While the controller has a task in flight and its inbox is empty, some
 event is pending or some executor step is enabled: the completion notice of a task that ran is between executor and controller,
 a queued task either can run or has its missing input in an outstanding transfer. -/
 theorem c03_ongoing_is_live (f : Sem) (j : Job) (cl : Cluster) (wf : WF j cl) (s : Sys) (hr : Reachable f j cl s)
     (hib : s.inbox = []) (ho : s.ctl.ongoing ≠ []) :
-    s.env.pending ≠ [] ∨ ∃ es e', envStep f j s.env es = some e' :=
-  sI_ongoing_live f j cl wf s hr hib ho
+    s.env.pending ≠ [] ∨ ∃ es e', envStepP f j s.env es = some e' := by
+  have h1 := (invAll_reachable f j cl wf s hr).h1
+  rcases sI_ongoing_live f j cl wf s hr hib ho with h | ⟨es, e', he⟩
+  · exact Or.inl h
+  · exact Or.inr ⟨es, e', by rw [envStepP_eq f j s.env es h1.no_trim]; exact he⟩
+
+/-! ### crash sites outside `crashMsgs` (audit C03 #3) -/
+
+/-- **Every event names things the controller knows**: a worker's notice comes from a worker of the cluster and names a
+declared output of a task of the job, a transfer notice names a host of the cluster and a declared output, a payload a
+requested output. Hence the lookups `ts2component[ds.task]`, `components[..]`, `host2workers[host]`,
+`job.tasks[ds.task].definition.output_schema` and `state.outputs[ds]` in `notify` are defined (no KeyError on unknown
+ids), and `notify`'s "malformed event, expected origin to be WorkerId" cannot fire: in the model the origin of a notice
+without `transmit_idx` is a worker by construction of `Event.pubW` — the executors' side of that is C06/C07. -/
+theorem c03_events_wellformed (f : Sem) (j : Job) (cl : Cluster) (wf : WF j cl) (s : Sys) (hr : Reachable f j cl s) :
+    (∀ w ds, Event.pubW w ds ∈ s.allEv → w ∈ cl.ids ∧ ds.task < j.tasks.length ∧ ds.out < j.nOut ds.task) ∧
+    (∀ h ds, Event.pubT h ds ∈ s.allEv → h ∈ cl.hosts ∧ ds.task < j.tasks.length ∧ ds.out < j.nOut ds.task) ∧
+    (∀ ds v, Event.payload ds v ∈ s.allEv → ds ∈ j.ext) := by
+  have hA := invAll_reachable f j cl wf s hr
+  refine ⟨?_, ?_, ?_⟩
+  · intro w ds he
+    obtain ⟨hran, hout⟩ := hA.h2.ev_ran w ds he
+    exact ⟨(hA.h4.evW_present w ds he).1, (hA.h2.ran_disp _ hran).2, hout⟩
+  · intro h ds he
+    have hp := hA.h2x.evT_produced h ds he
+    obtain ⟨hran, hout⟩ := (hA.h2.produced_iff ds).mp hp
+    exact ⟨(hA.h4.evT_present h ds he).1, (hA.h2.ran_disp _ hran).2, hout⟩
+  · intro ds v he
+    exact (hA.h3.payload_ok ds v he).1
+
+/-- **The tables the heuristics index are total on a component** — C16's theorems, cited here as the hypothesis of
+C03's crash-freedom for the two lookup sites that the scheduler model (`Model/Sched.lean`: key SETS of
+`worker2task_distance`, `worker2task_values`, `worker2task_overhead`) does not contain: `core.distance_matrix[a][b]`
+(assign.py, `update_worker2task_distance`: `a` is the task of a dataset on the worker with
+`ts2component[a] == component_id`, `b` a task of that component) and `core.value[t]` (`_assignment_heuristic`: `t` a
+computable task of the component). For the preschedule of every well-formed acyclic job both are defined for all tasks
+of one component (python `nearest_common_descendant`; the `coptrs` fast path is outside, DESIGN §8). -/
+theorem c03_heuristic_tables_total {α β : Type} [DecidableEq α] [DecidableEq β] (job : Presched.Job α β)
+    (hw : job.WF) (hd : Presched.IsDag job) :
+    ∀ c ∈ (Presched.precompute job).components,
+      (∀ a ∈ c.nodes, ∀ b ∈ c.nodes, (c.distance a b).isSome = true) ∧ (∀ t ∈ c.nodes, (c.valueOf t).isSome = true) := by
+  intro c hc
+  refine ⟨?_, ?_⟩
+  · intro a ha b hb
+    obtain ⟨d, hd', _⟩ := Presched.c16_ncd job hw hd c hc a ha b hb
+    rw [hd']; rfl
+  · intro t ht
+    obtain ⟨k, _, _, hv⟩ := Presched.c16_value job hw hd c hc t ht
+    rw [hv]; rfl
+
+/-! ### what a command carries; termination -/
+
+/-- **The publish set a task sequence carries is complete** (audit C03 #1: the executor publishes ONLY what
+`TaskSequence.publish` names, and the controller waits for the notices of ALL declared outputs). Every task sequence
+ever commanded carries exactly the declared outputs of its task; the publish set the environment holds for a dispatched
+task is that list; and the body of a queued task publishes precisely what its command named (`envRunSpec`) — which is
+therefore everything. A controller that trims `publish` (the TODO at assign.py "trim for only the necessary ones")
+without changing the completion rule leaves the model: its command differs from `actCmds`, and `envRunSpec` would no
+longer announce the trimmed outputs. -/
+theorem c03_publish_complete (f : Sem) (j : Job) (cl : Cluster) (hw : cl.ids.Nodup) (s : Sys) (hr : Reachable f j cl s) :
+    (∀ w t pb, Cmd.taskSeq w t pb ∈ s.env.log → pb = j.outputsOf t) ∧
+    (∀ t, 1 ≤ s.env.dispatchedE t → s.env.pubOf t = j.outputsOf t) ∧
+    (∀ w t, envStepP f j s.env (.run w t) = envRunSpec f j s.env w t) := by
+  have h := invPub_reachable f j cl s hr
+  exact ⟨h.log_pub, h.pub_of, fun w t => (envStepP_reachable f j cl hw s hr w t).1⟩
+
+/-- **Every notice the completion rule waits for is really sent**: once the body of a task has run in the environment
+that honours the publish set, each of its declared outputs has been stored on its host and its notice has been processed
+or is on its way (so `all_outputs_published` eventually sees `len(output_schema)` notices). -/
+theorem c03_all_notices_sent (f : Sem) (j : Job) (cl : Cluster) (wf : WF j cl) (s : Sys) (hr : Reachable f j cl s)
+    (t : Task) (hran : s.env.ran t = true) (k : Nat) (hk : k < j.nOut t) :
+    s.env.produced ⟨t, k⟩ = true ∧ (s.ctl.published ⟨t, k⟩ = true ∨ ∃ w, Event.pubW w ⟨t, k⟩ ∈ s.allEv) :=
+  ⟨((invAll_reachable f j cl wf s hr).h2.produced_iff ⟨t, k⟩).mpr ⟨hran, hk⟩, (sL_reachable f j cl wf s hr).notice t hran k hk⟩
+
+/-- **A controller step is always enabled** (audit C01 #1 / C03 #2: enabledness inside `assign()`): in every reachable
+state of the extended system whose phase is neither `finished` nor `waiting` a step of the CONTROLLER (not of an
+executor) is enabled — in particular inside `_assignment_heuristic`, where an admissible assignment exists whenever a
+task and a worker are left: the worker is idle, the task computable, the GPU flags fit (partition of
+`assign_within_component`) and the scan of `build_assignment` finds an `available` source for every input that needs
+one, or raises. A state stuck inside `assign()` does not exist. -/
+theorem c03_ctrl_step_enabled (f : Sem) (j : Job) (cl : Cluster) (cm : Comps) (wf : WF j cl) (wfc : WFC j cm) (x : SysX)
+    (hr : ReachableX f j cl cm x) (hnf : x.sys.phase ≠ .finished) (hnw : x.sys.phase ≠ .waiting) :
+    ∃ st x', stepX f j cl cm x st = some x' ∧ st.isEnv = false :=
+  sT_ctrl_enabled f j cl cm wf wfc x hr hnf hnw
+
+/-- **Deadlock freedom**: unless the loop has exited some step of the system is enabled. -/
+theorem c03_deadlock_free (f : Sem) (j : Job) (cl : Cluster) (cm : Comps) (wf : WF j cl) (wfc : WFC j cm)
+    (feas : Feasible j cl) (x : SysX) (hr : ReachableX f j cl cm x) (hnf : x.sys.phase ≠ .finished) :
+    ∃ st x', stepX f j cl cm x st = some x' :=
+  sT_deadlock_free f j cl cm wf wfc feas x hr hnf
+
+/-- **A well-founded measure decreases at every step** — controller micro-step, scheduler control flow, executor step —
+from every reachable state (`mu`, Lemmas/SchedTermC.lean: loop iterations left, phase, position inside `assign()`, work
+left in the phase, |queued| + |outstanding|). -/
+theorem c03_measure_decreases (f : Sem) (j : Job) (cl : Cluster) (cm : Comps) (wf : WF j cl) (wfc : WFC j cm)
+    (feas : Feasible j cl) (x x' : SysX) (st : StepX) (hr : ReachableX f j cl cm x)
+    (hs : stepX f j cl cm x st = some x') : lt7 (mu j x') (mu j x) :=
+  sT_decreases f j cl cm wf wfc feas x x' st hr hs
+
+/-- **No infinite execution**: no livelock, no endless spinning, no endless waiting — for any order and batching of
+events and any admissible choice of the heuristics. -/
+theorem c03_no_infinite_execution (f : Sem) (j : Job) (cl : Cluster) (cm : Comps) (wf : WF j cl) (wfc : WFC j cm)
+    (feas : Feasible j cl) (σ : Nat → SysX) (h0 : ReachableX f j cl cm (σ 0))
+    (hstep : ∀ n, ∃ st, stepX f j cl cm (σ n) st = some (σ (n + 1))) : False :=
+  sT_no_infinite f j cl cm wf wfc feas σ h0 hstep
+
+/-- **A feasible job always completes.** From every reachable state of the extended system the exit of the controller
+loop is INEVITABLE (`Inev`: it has exited, or a step is enabled and after every enabled step the exit is inevitable) —
+i.e. every maximal execution reaches `finished`. The fairness the property text asks of executors ("eventually report
+every command they were given") is needed only in the weak form "an enabled step is eventually taken" (maximality):
+the system has no infinite execution at all, so no scheduling of the enabled steps can starve anything. At `finished`
+all tasks are completed, all requested outputs fetched and `shutdown` has been issued once (`c03_done`,
+`c03_exit_clean`, `c03_shutdown_once`). -/
+theorem c03_completes (f : Sem) (j : Job) (cl : Cluster) (cm : Comps) (wf : WF j cl) (wfc : WFC j cm)
+    (feas : Feasible j cl) (x : SysX) (hr : ReachableX f j cl cm x) :
+    Inev f j cl cm (fun y => y.sys.phase = .finished ∧ y.sys.shutdowns = 1 ∧
+      (∀ t, t < j.tasks.length → y.sys.ctl.doneC t = true ∧ y.sys.env.ran t = true ∧ y.sys.env.dispatchedE t = 1) ∧
+      (∀ ds, ds ∈ j.ext → (y.sys.ctl.outputs ds).isSome = true)) x := by
+  refine (sT_inevitable f j cl cm wf wfc feas x hr).mono ?_ hr
+  intro y hy hfin
+  have hR := sL_reachableX_base f j cl cm y hy
+  refine ⟨hfin, ?_, c03_done f j cl wf y.sys hR hfin, (c03_exit_clean f j cl y.sys hR hfin).2.2⟩
+  have := c03_shutdown_once f j cl y.sys hR
+  simp [hfin] at this
+  exact this
+
+/-- the same as a statement about executions: an execution from the initial state that takes an enabled step whenever
+there is one reaches `finished` after finitely many steps -/
+theorem c03_every_maximal_execution_finishes (f : Sem) (j : Job) (cl : Cluster) (cm : Comps) (wf : WF j cl)
+    (wfc : WFC j cm) (feas : Feasible j cl) (σ : Nat → SysX) (h0 : σ 0 = SysX.init j cl cm)
+    (hmax : ∀ n, (∃ st, stepX f j cl cm (σ n) st = some (σ (n + 1))) ∨
+      ((∀ st, stepX f j cl cm (σ n) st = none) ∧ σ (n + 1) = σ n)) :
+    ∃ n, (σ n).sys.phase = .finished :=
+  sT_maximal_finishes f j cl cm wf wfc feas σ h0 hmax
+
+/-! non-vacuity: a run of the EXTENDED system (one task, one worker, the output requested) through `assign()`'s control
+flow (step II, migration, GPU call, CPU call), dispatch, execution, notice, fetch, payload, to `finished` in two
+iterations; and the trimmed publish set: had the command named no output, the body would announce nothing -/
+section
+def exJobT : Job := { tasks := [{ nOut := 1, gpu := false, inputs := [] }], ext := [⟨0, 0⟩] }
+def exClT : Cluster := { workers := [(⟨0, 0⟩, false)] }
+def exSemT : Sem := fun t k args => s!"t{t}.{k}({args})"
+def exCmT : Comps := { compOf := fun _ => 0, n := 1 }
+def exStepsT : List StepX :=
+  [.base .enter, .beginStepII, .migrate 0, .awcEnter, .hPhase2, .hEnd, .hPhase2, .base (.assign ⟨⟨0, 0⟩, 0, []⟩), .hEnd,
+   .base .endAssign, .base .plan1, .base .endPlan, .base .endFlushF, .base .endFlush,
+   .base (.env (.run ⟨0, 0⟩ 0)), .base (.recv [.pubW ⟨0, 0⟩ ⟨0, 0⟩]), .base .notify1, .base .endNotify,
+   .base .enter, .base .endAssign, .base .endPlan, .base .flushF1, .base .endFlushF, .base .endFlush,
+   .base (.env (.io 0)), .base (.recv [.payload ⟨0, 0⟩ "t0.0([])"]), .base .notify1, .base .endNotify, .base .enter]
+example : ((runStepsX exSemT exJobT exClT exCmT (SysX.init exJobT exClT exCmT) exStepsT).map
+    (fun x => (x.sys.phase, x.sys.ctl.outputs ⟨0, 0⟩, x.sys.env.viol))) = some (.finished, some "t0.0([])", []) := by
+  decide
+example : ((runStepsX exSemT exJobT exClT exCmT (SysX.init exJobT exClT exCmT) exStepsT).map
+    (fun x => (x.sys.err, x.sch.schErr, x.sys.rounds, x.sys.shutdowns))) = some (none, none, 2, 1) := by
+  decide
+/-- the command of the run above carries the publish set {t0.0} -/
+example : ((runStepsX exSemT exJobT exClT exCmT (SysX.init exJobT exClT exCmT) (exStepsT.take 9)).map
+    (fun x => x.sys.env.log)) = some [Cmd.taskSeq ⟨0, 0⟩ 0 [⟨0, 0⟩]] := by
+  decide
+/-- an environment holding a TRIMMED publish set for a queued task: its body runs and announces nothing -/
+example : ((envStepP exSemT exJobT { Env.init with queued := [(⟨0, 0⟩, 0)], pubOf := fun _ => [], trimmed := fun _ => true }
+    (.run ⟨0, 0⟩ 0)).map (fun e => (e.pending, e.ran 0, e.produced ⟨0, 0⟩))) = some ([], true, false) := by
+  decide
+end
 
 /-! ### non-vacuity: the LAST output's notice overtakes an earlier one
 
